@@ -5,7 +5,7 @@ def stack_nontrivial(tok, res):
     # non-trivial: the real code split a write, made a grant wait, ran a half-tunnel or took a close / dispatch / sniff branch
     if tok[0] == "wr":
         return res.count(",") >= 1
-    if tok[0] in ("wrl", "srv", "cli", "disp", "wrap", "sniff", "wtok"):
+    if tok[0] in ("wrl", "srv", "cli", "disp", "wrap", "sniff", "wtok", "dl", "qclose"):
         return True
     if tok[0] == "wlim":
         return "/" in res or "sink" in res      # a write that was split under a finite limiter, or a failing sink
@@ -42,16 +42,21 @@ def stack_class(r):
         return "rd " + r.split(";")[1]
     if r.startswith("w="):
         return "wtok"
+    if r.startswith("calls="):
+        return ";".join(x for x in r.split(";") if not x.startswith("got="))
     return r[:60]
 
 
 def e2e_nontrivial(tok, res):
-    return tok[0] in ("xfer", "multi", "bw", "sbw", "slow") and not res.startswith("err")
+    return tok[0] in ("xfer", "multi", "bw", "sbw", "slow", "life", "sched") and not res.startswith("err")
 
 
 def e2e_class(r):
     if r.startswith("total="):
         return "bw samples=" + str(len(r.split(";s=")[1].split(",")))
+    if r.startswith("s="):
+        steps = r[2:].split("/")
+        return "life steps=%d refused=%d" % (len(steps), min(9, sum(s.split(",").count("-") for s in steps)))
     if r.startswith("r="):
         els = r[2:].split("|")
         return "sbw transfers=%d complete=%d" % (len(els), sum(1 for e in els if e.split(":")[1:3] == ["1", "1"]))
@@ -72,11 +77,15 @@ _T = ["mirror_proxy", "mirror_order", "mirror_visitor", "limiter_position", "sta
       "closeNotify_witness", "closeNotify_fixed", "stats_close", "rwcConn_close", "jstep_done", "join_returns",
       "join_stuck_witness", "find_endpoint", "find_name", "no_crosswire", "dispatch_unknown", "pp_header_src",
       "pp_header_iff", "pp_header_dst", "https_replays_all", "tcpmux_passthrough_replays_all",
-      "tcpmux_strips_consumed", "tcpmux_early_data_witness", "holdsOn_sound", "model_holdsOn", "xferHoldsOn_sound"]
+      "tcpmux_strips_consumed", "tcpmux_early_data_witness", "holdsOn_sound", "model_holdsOn", "xferHoldsOn_sound",
+      "dl_clear_both", "dl_read_only_clear_leaves_write", "handle_clears_deadlines", "handle_closes_or_clears",
+      "handle_code_clears", "dlHoldsOn_sound", "quic_noCancel_delivers", "quic_close_delivers", "quic_cancelWrite_loses",
+      "quic_close_code", "pool_no_sharing", "pool_live_not_pooled", "pool_double_put_witness", "pool_recycle_once_code",
+      "survivor_keeps_route", "survivor_example"]
 
 PROP = {
         "level": "proof",
-        "gens": [],
+        "gens": ["ConnFacts"],
         "theorems": ["Frp.C01." + t for t in _T],
         "engines": [
             {"name": "stack", "quick_n": 3000, "thorough_n": 30000, "thorough_seeds": 3,
@@ -99,7 +108,12 @@ PROP = {
                 "InWorkConn) with the harness as frps, proxy-protocol none/v1/v2 parsed by a tagged backend, close from either "
                 "side; real client proxy.Manager.HandleWorkConn over 1..4 prefix-related names + an unknown name; real "
                 "CloseNotifyConn/StatsConn/WrapReadWriteCloserConn closed 1..3 times over a counting conn; real vhost HTTPS "
-                "muxer and tcpmux CONNECT muxer (passthrough on/off) with 0/1/40 early bytes. e2e engine: real frps+frpc in one "
+                "muxer and tcpmux CONNECT muxer (passthrough on/off) with 0/1/40 early bytes; the same muxers behind a listener "
+                "whose connections RECORD every Set{,Read,Write}Deadline call: routed / routed by HTTP user / with credentials / "
+                "unrouted / wrong credentials, the deadlines left armed at the hand-off, and a write in each direction on a "
+                "connection OLDER than the muxer's (400..700 ms) timeout; a real quic-go stream wrapped by QuicStreamToNetConn at "
+                "both ends: the writer writes and closes, the reader starts 0..3.4 s later, the stream calls of Close recorded. "
+                "e2e engine: real frps+frpc in one "
                 "process, 4 transport configurations (tcpMux x TLS x pool) over tcp + one over quic + one over websocket, 56 proxies each (tcp 24, stcp+visitor 12, https 8, "
                 "tcpmux 4, 2 bandwidth, 6 small-limit: 8KB plain / 12KB enc / 64KB enc+comp x limit enforced by frpc / frps), each with its own tagged echo backend; payloads 0..1 MiB (random / zeros / mixed runs), "
                 "write chunkings 1..64 KiB and random, echo and one-way (user closes => backend must see everything then EOF), "
@@ -110,9 +124,21 @@ PROP = {
                 "complete, unchanged, EOF, receive trace within burst + rate x span; slow readers (a sleep after every read) that "
                 "stop reading for 0..3.5 s at a byte position or at the moment the writing side of the tunnel is done (backend "
                 "half-closed, frpc forwarded everything, closed and hung up), user or backend as the reader, 17 B..10 MiB: "
-                "complete stream, then EOF. non-trivial = a write that was split / a grant that waited / any half-tunnel, close, "
+                "complete stream, then EOF; proxy LIFE CYCLE on a dedicated pair: 13 tcpmux / https proxies (routeByHTTPUser "
+                "siblings on one domain, other domains, wildcard proxies covering them) reloaded through "
+                "client.Service.UpdateAllConfigurer along generated close / start sequences, after each step a user per "
+                "(host, HTTP user) — 25 probes — notes whose backend answers, compared with C06's Router model and every ACTIVE "
+                "proxy's own endpoint must reach its own backend; connection SCHEDULES: 3..5 back-to-back groups of 1..4 "
+                "simultaneous connections, mostly on compressed proxies (pooled codecs), each with its own random stream checked "
+                "byte for byte both ways and its tag. non-trivial = a write that was split / a grant that waited / any half-tunnel, close, "
                 "dispatch, sniff or end-to-end transfer that ran; distinct = distinct (op line, result) pairs",
         "trusted": COMMON_TRUST + [
+            "models Frp/Model/Deadline.lean, QuicStream.lean, CodecPool1.lean written by hand from pkg/util/vhost/vhost.go "
+            "(Muxer.handle), pkg/util/net/conn.go (wrapQuicStream) + quic-go's stream semantics, golib io/pool "
+            "(WithCompressionFromPool); tied by Frp/Gen/ConnFacts.lean (go/ast: the deadline calls of handle, the stream calls "
+            "of wrapQuicStream.Close incl. those in closures, the most invocations of a codec's recycle function on any path "
+            "of every caller) through handle_code_clears / quic_close_code / pool_recycle_once_code, and by the dl / qclose / "
+            "sched ops; the life op replays C06's Router model (Frp/Model/Router.lean)",
             "models Frp/Model/Layers.lean, Limit.lean, CloseGraph.lean, Tunnel.lean written by hand from "
             "server/proxy/proxy.go, client/proxy/proxy.go, proxy_manager.go, pkg/util/limit, pkg/util/net/conn.go, golib io / "
             "net.SharedConn, vhost/https.go, tcpmux/httpconnect.go; tied by the stack and e2e engines",
@@ -126,6 +152,11 @@ PROP = {
             "PARTIAL: transports (yamux, TLS, kernel TCP, quic, websocket) and 'eventually delivered' under real scheduling are "
             "only sampled by the e2e engine (quic and websocket by one pair each: random transfers plus slow / pausing readers); "
             "the kcp transport and the xtcp->stcp fallback are not driven",
+            "quic-go's stream semantics (Close = FIN after everything written, CancelWrite = reset that makes the peer discard "
+            "unread data) are ASSUMED as modelled in QuicStream.lean; sampled by qclose on a real quic-go pair with pauses up to "
+            "3.4 s and by the e2e slow op (3.5 s) — a cancellation armed for later than that is only caught by quic_close_code",
+            "sync.Pool hands out whatever was Put (CodecPool1.lean: any choice); which connections get a twice-returned object "
+            "depends on scheduling — sched ops sample it, pool_recycle_once_code decides it from the source",
             "integer ticks, rate r tokens per tick (bandwidthLimit is a multiple of 1024 B/s, so tick = 1/1024 s is exact)",
             "the bandwidth scenario is real time: 640 KiB through a 256 KB/s limiter (about 1.5 s), bound checked with 150 KB slack; "
             "the small-limit scenarios take (payload - burst) / limit <= 2.5 s each (six run simultaneously), bound checked with 400 ms "
@@ -146,7 +177,10 @@ META = {
         "technique": "Lean 4: stream-layer algebra (lawful stateful transducer pairs; stacking preserves the law by induction; "
                      "the two ends' different stacks are proved compatible in both directions for every option combination), "
                      "the limiter's chunk loop and a token-bucket bound for all histories, a close graph with closures resolved "
-                     "at close time + a small-step Join, name dispatch for all proxy tables; differential correspondence with "
+                     "at close time + a small-step Join, name dispatch for all proxy tables; the deadline discipline of the vhost sniff phase, the close of a QUIC "
+                     "stream, the pooled-codec discipline (invariant over all histories and pool choices) with their programs "
+                     "REGENERATED from the source (go/ast), route survival under removals over C06's router model; "
+                     "differential correspondence with "
                      "the real limiter, wrappers, half-tunnels and a real frps+frpc pair",
         "text": "Partial (cipher/compression lawfulness, transports and liveness under real scheduling are assumed and sampled). "
                 "Proved for the model, kernel-checked: both ends build the same transforming layers in the same order for all "
@@ -162,8 +196,15 @@ META = {
                 "variable; user close never reaches the backend) with the repaired closure proved for all combinations; "
                 "CloseNotifyConn.Close never closes its connection (defect) and does once repaired; Join returns with both ends "
                 "closed after the end of either direction; the backend dialled is the named proxy's for all tables with distinct "
-                "names; the proxy-protocol source is the user's address; SNI / CONNECT-passthrough sniffing replays every byte.",
+                "names; the proxy-protocol source is the user's address; SNI / CONNECT-passthrough sniffing replays every byte; a connection the vhost muxer hands on carries "
+                "no deadline (the calls of the real handle are regenerated and run on the model) and every other outcome closes "
+                "it; a stream close that never calls CancelWrite delivers everything written then end-of-stream for every reader "
+                "speed, one that does loses the tail (the real wrapper's calls are regenerated); if every handler recycles its "
+                "pooled codec at most once (regenerated path count) no two live connections ever hold the same codec, for all "
+                "histories and all pool choices; removing routes of other buckets never changes the route of a host/user that "
+                "has its own.",
         "note": "Trusted: Lean kernel; hand-written models; harness. Assumed: golib crypto/snappy lawful, x/time/rate, yamux/TLS/TCP. "
                 "Known findings reproduced on every run: C01-server-limiter-close, C01-closenotify-self-close, "
-                "C01-tcpmux-early-data. Not covered: kcp, xtcp fallback, vhost port shared with the control port (quic / websocket: one e2e pair each).",
+                "C01-tcpmux-early-data. Not covered: kcp, xtcp fallback, vhost port shared with the control port (quic / websocket: one e2e pair each); "
+                "tcpmux / https proxy groups and http-type proxies in the life-cycle op (C06 / C10 / C13 cover their routing).",
     }
